@@ -4793,7 +4793,6 @@ bool SoPlexBase<R>::getBasisInverseRowReal(int r, R* coef, int* inds, int* ninds
 
 
 /// computes column c of basis inverse; returns true on success
-/// @todo does not work correctly for the row representation
 template <class R>
 bool SoPlexBase<R>::getBasisInverseColReal(int c, R* coef, int* inds, int* ninds, bool unscale)
 {
@@ -4927,28 +4926,12 @@ bool SoPlexBase<R>::getBasisInverseColReal(int c, R* coef, int* inds, int* ninds
          {
             if(unscale && _solver.isScaled())
             {
-               int scaleExp = -_scaler->getRowScaleExp(index);
+               // apply row scaling R to the unit vector of row c; index is only its position in the row basis
+               int scaleExp = _scaler->getRowScaleExp(c);
                DSVectorBase<R> rhs(1);
                rhs.add(index, spxLdexp(1.0, scaleExp));
                _solver.basis().coSolve(x, rhs);
-               x.setup();
-               int size = x.size();
-
-               // apply scaling based on \tilde{C}
-               for(int i = 0; i < size; i++)
-               {
-                  int idx = bind[x.index(i)];
-
-                  if(idx < 0)
-                  {
-                     idx = -idx - 1;
-                     scaleExp = _scaler->getRowScaleExp(idx);
-                  }
-                  else
-                     scaleExp = - _scaler->getColScaleExp(idx);
-
-                  spxLdexp(x.value(i), scaleExp);
-               }
+               // x is the scaled solution; the scaling \tilde{C} is applied below when filling the result vector
             }
             else
             {
@@ -4976,17 +4959,12 @@ bool SoPlexBase<R>::getBasisInverseColReal(int c, R* coef, int* inds, int* ninds
                assert(idx < numRows());
                assert(!_solver.isRowBasic(idx));
 
-               if(unscale && _solver.isScaled())
-               {
-                  DSVectorBase<R> r_unscaled(numCols());
-                  _solver.getRowVectorUnscaled(idx, r_unscaled);
-                  coef[i] = - (r_unscaled * x);
-               }
-               else
-                  coef[i] = - (_solver.rowVector(idx) * x);
+               // x is the solution in the scaled space, so multiply with the scaled row
+               coef[i] = - (_solver.rowVector(idx) * x);
 
+               // the slack of row idx is unscaled by the inverse row scaling factor
                if(unscale && _solver.isScaled())
-                  coef[i] = spxLdexp(coef[i], _scaler->getRowScaleExp(idx));
+                  coef[i] = spxLdexp(coef[i], -_scaler->getRowScaleExp(idx));
             }
             else
             {
